@@ -1,4 +1,7 @@
-(* C05 — theorems (statements in full; proofs in Proofs.v / ProofsB.v). *)
+(* C05 — theorems (statements in full; proofs in Proofs.v / ProofsB.v; non-vacuity in Examples.v).
+   L: torrent layout, content: verified content, enc: RC4 stream?, ks: keystream of the connection's
+   encryptor (arbitrary function). All statements are for every op list, i.e. every request stream,
+   every choke decision sequence and every segmentation of the writes. *)
 From Coq Require Import List NArith Bool.
 From LTV.C05 Require Import ParamsGen Model Proofs ProofsB Examples.
 Import ListNotations.
@@ -8,82 +11,101 @@ Theorem params_ok_now : Proofs.params_ok = true.
 Proof. exact Proofs.params_ok_now. Qed.
 Print Assumptions params_ok_now.
 
-(* piece_bytes_exact (segmentation independent: holds after every op list, whatever the budgets k) *)
-Theorem piece_bytes_exact : forall (L : layout) (content : N -> N -> N) (ops : list op),
-  let s := run L content ops in
-  stream s ++ obuf s ++ pend_payload content s = wire content (msgs s).
+(* piece_bytes_exact, plain and RC4 at once *)
+Theorem piece_bytes_exact : forall (L : layout) (content : N -> N -> N) (enc : bool) (ks : N -> N) (ops : list op),
+  let s := run L content enc ks ops in
+  exists P1, wire content (msgs s) = P1 ++ pend_payload content s /\
+             stream s ++ obuf s ++ ebuf s = crypt enc ks 0 P1 /\
+             kpos s = len P1.
 Proof. exact Proofs.piece_bytes_exact. Qed.
 Print Assumptions piece_bytes_exact.
 
-Theorem piece_bytes_exact_idle : forall (L : layout) (content : N -> N -> N) (ops : list op),
-  ws (run L content ops) = Idle -> stream (run L content ops) = wire content (msgs (run L content ops)).
-Proof. exact Proofs.piece_bytes_exact_idle. Qed.
-Print Assumptions piece_bytes_exact_idle.
+Theorem piece_bytes_exact_plain : forall (L : layout) (content : N -> N -> N) (enc : bool) (ks : N -> N) (ops : list op),
+  enc = false ->
+  let s := run L content enc ks ops in
+  stream s ++ obuf s ++ pend_payload content s = wire content (msgs s).
+Proof. exact Proofs.piece_bytes_exact_plain. Qed.
+Print Assumptions piece_bytes_exact_plain.
 
-Theorem piece_answers_request : forall (L : layout) (content : N -> N -> N) (ops : list op) (p : piece),
-  In (MPiece p) (msgs (run L content ops)) ->
+(* RC4: the bytes on the wire, concatenated across all WriteReady segments, partial writes and
+   encrypt-buffer refills, are the plaintext messages XOR ks at consecutive positions 0,1,2,... *)
+Theorem piece_bytes_exact_rc4 : forall (L : layout) (content : N -> N -> N) (enc : bool) (ks : N -> N) (ops : list op),
+  enc = true -> ws (run L content enc ks ops) = Idle ->
+  stream (run L content enc ks ops) = xor_from ks 0 (wire content (msgs (run L content enc ks ops))).
+Proof. exact Proofs.piece_bytes_exact_rc4. Qed.
+Print Assumptions piece_bytes_exact_rc4.
+
+(* ... where xor_from uses each keystream position exactly once, in order *)
+Theorem xor_from_nth : forall (ks : N -> N) (l : list N) (p : N) (j : nat), (j < length l)%nat ->
+  nth j (xor_from ks p l) 0 = N.lxor (nth j l 0) (ks (p + N.of_nat j)).
+Proof. exact (Proofs.xor_from_nth (fun _ _ => 0)). Qed.
+Print Assumptions xor_from_nth.
+
+Theorem piece_answers_request : forall (L : layout) (content : N -> N -> N) (enc : bool) (ks : N -> N) (ops : list op) (p : piece),
+  In (MPiece p) (msgs (run L content enc ks ops)) ->
   exists o1 o2, ops = o1 ++ RecvRequest p :: o2 /\
-                choked (run L content o1) = false /\ closed (run L content o1) = false.
+                choked (run L content enc ks o1) = false /\ closed (run L content enc ks o1) = false.
 Proof. exact ProofsB.piece_answers_request. Qed.
 Print Assumptions piece_answers_request.
 
-Theorem piece_answers_request_from : forall (L : layout) (content : N -> N -> N) (ops1 ops2 : list op) (p : piece),
-  In (MPiece p) (msgs (run L content (ops1 ++ ops2))) ->
-  In (MPiece p) (msgs (run L content ops1)) \/ In p (queue (run L content ops1)) \/
+Theorem piece_answers_request_from : forall (L : layout) (content : N -> N -> N) (enc : bool) (ks : N -> N)
+    (ops1 ops2 : list op) (p : piece),
+  In (MPiece p) (msgs (run L content enc ks (ops1 ++ ops2))) ->
+  In (MPiece p) (msgs (run L content enc ks ops1)) \/ In p (queue (run L content enc ks ops1)) \/
   (exists o1 o2, ops2 = o1 ++ RecvRequest p :: o2 /\
-                 choked (Proofs.run_from L content (run L content ops1) o1) = false /\
-                 closed (Proofs.run_from L content (run L content ops1) o1) = false).
+                 choked (Proofs.run_from L content enc ks (run L content enc ks ops1) o1) = false /\
+                 closed (Proofs.run_from L content enc ks (run L content enc ks ops1) o1) = false).
 Proof. exact ProofsB.piece_answers_request_from. Qed.
 Print Assumptions piece_answers_request_from.
 
-Theorem never_unverified : forall (L : layout) (content : N -> N -> N) (ops : list op) (p : piece),
-  In (MPiece p) (msgs (run L content ops)) -> l_completed L (p_index p) = true.
+Theorem never_unverified : forall (L : layout) (content : N -> N -> N) (enc : bool) (ks : N -> N) (ops : list op) (p : piece),
+  In (MPiece p) (msgs (run L content enc ks ops)) -> l_completed L (p_index p) = true.
 Proof. exact Proofs.never_unverified. Qed.
 Print Assumptions never_unverified.
 
-Theorem never_out_of_range : forall (L : layout) (content : N -> N -> N) (ops : list op) (p : piece),
-  In (MPiece p) (msgs (run L content ops)) ->
+Theorem never_out_of_range : forall (L : layout) (content : N -> N -> N) (enc : bool) (ks : N -> N) (ops : list op) (p : piece),
+  In (MPiece p) (msgs (run L content enc ks ops)) ->
   p_index p < n_pieces L /\ 0 < p_len p /\ p_len p <= Params.c05_request_len_limit /\
   p_off p + p_len p <= piece_size L (p_index p).
 Proof. exact Proofs.never_out_of_range. Qed.
 Print Assumptions never_out_of_range.
 
-Theorem length_limit : forall (L : layout) (content : N -> N -> N) (ops : list op),
-  N.of_nat (length (queue (run L content ops))) <= Params.c05_max_request_queue /\
-  NoDup (queue (run L content ops)) /\
-  (forall p, In p (queue (run L content ops)) -> p_len p <= Params.c05_request_len_limit).
+Theorem length_limit : forall (L : layout) (content : N -> N -> N) (enc : bool) (ks : N -> N) (ops : list op),
+  N.of_nat (length (queue (run L content enc ks ops))) <= Params.c05_max_request_queue /\
+  NoDup (queue (run L content enc ks ops)) /\
+  (forall p, In p (queue (run L content enc ks ops)) -> p_len p <= Params.c05_request_len_limit).
 Proof. exact Proofs.length_limit. Qed.
 Print Assumptions length_limit.
 
-Theorem cancel_effective : forall (L : layout) (content : N -> N -> N) (ops : list op) (p : piece),
-  closed (run L content ops) = false -> ~ In p (queue (run L content (ops ++ [RecvCancel p]))).
+Theorem cancel_effective : forall (L : layout) (content : N -> N -> N) (enc : bool) (ks : N -> N) (ops : list op) (p : piece),
+  closed (run L content enc ks ops) = false -> ~ In p (queue (run L content enc ks (ops ++ [RecvCancel p]))).
 Proof. exact Proofs.cancel_effective. Qed.
 Print Assumptions cancel_effective.
 
-Theorem choke_clears : forall (L : layout) (content : N -> N -> N) (ops : list op) (k : N),
-  let s := run L content ops in
-  let s' := step L content s (WriteReady k) in
+Theorem choke_clears : forall (L : layout) (content : N -> N -> N) (enc : bool) (ks : N -> N) (ops : list op) (k : N),
+  let s := run L content enc ks ops in
+  let s' := step L content enc ks s (WriteReady k) in
   exists m, msgs s' = m ++ msgs s /\
             (In (MChoke true) m -> queue s' = [] /\ exists m', m = MChoke true :: m').
 Proof. exact ProofsB.choke_clears. Qed.
 Print Assumptions choke_clears.
 
-Theorem request_ignored : forall (L : layout) (content : N -> N -> N) (s : st) (p : piece),
+Theorem request_ignored : forall (L : layout) (content : N -> N -> N) (enc : bool) (ks : N -> N) (s : st) (p : piece),
   choked s = true \/ Params.c05_request_len_limit < p_len p \/
   Params.c05_max_request_queue <= N.of_nat (length (queue s)) \/ In p (queue s) ->
-  step L content s (RecvRequest p) = s.
+  step L content enc ks s (RecvRequest p) = s.
 Proof. exact ProofsB.request_ignored. Qed.
 Print Assumptions request_ignored.
 
-Theorem bad_request_closes : forall (L : layout) (content : N -> N -> N) (s : st) (p : piece) (q : list piece),
+Theorem bad_request_closes : forall (L : layout) (content : N -> N -> N) (enc : bool) (ks : N -> N) (s : st) (p : piece) (q : list piece),
   ws s = Idle -> closed s = false -> choked s = false -> queue s = p :: q ->
   is_valid_piece L p && l_completed L (p_index p) = false ->
-  forall k, let s' := step L content s (WriteReady k) in
+  forall k, let s' := step L content enc ks s (WriteReady k) in
   closed s' = true /\ out s' = out s /\ msgs s' = msgs s.
 Proof. exact ProofsB.bad_head_closes. Qed.
 Print Assumptions bad_request_closes.
 
-Theorem closed_forever : forall (L : layout) (content : N -> N -> N) (ops1 ops2 : list op),
-  closed (run L content ops1) = true -> run L content (ops1 ++ ops2) = run L content ops1.
+Theorem closed_forever : forall (L : layout) (content : N -> N -> N) (enc : bool) (ks : N -> N) (ops1 ops2 : list op),
+  closed (run L content enc ks ops1) = true -> run L content enc ks (ops1 ++ ops2) = run L content enc ks ops1.
 Proof. exact ProofsB.closed_forever. Qed.
 Print Assumptions closed_forever.
